@@ -142,6 +142,21 @@ func (d *Describer) lin(v ssa.Value, reach *Reach, depth int) LinForm {
 		case token.REM:
 			return linLeaf("rem(" + a.String() + ", " + b.String() + ")")
 		case token.QUO:
+			// (x / c1) / c2 = x / (c1·c2) for positive constants (flooring division)
+			if c2, ok := b.isConst(); ok && c2 > 0 {
+				if in, ok := x.X.(*ssa.BinOp); ok && in.Op == token.QUO {
+					if c1, ok := d.lin(in.Y, reach, depth+1).isConst(); ok && c1 > 0 {
+						return linLeaf("quo(" + d.lin(in.X, reach, depth+1).String() + ", " + LinForm{Coef: map[string]int64{}, Const: c1 * c2}.String() + ")")
+					}
+				}
+				if cv, ok := x.X.(*ssa.Convert); ok {
+					if in, ok := cv.X.(*ssa.BinOp); ok && in.Op == token.QUO && isNumeric(cv.Type()) {
+						if c1, ok := d.lin(in.Y, reach, depth+1).isConst(); ok && c1 > 0 {
+							return linLeaf("quo(" + d.lin(in.X, reach, depth+1).String() + ", " + LinForm{Coef: map[string]int64{}, Const: c1 * c2}.String() + ")")
+						}
+					}
+				}
+			}
 			return linLeaf("quo(" + a.String() + ", " + b.String() + ")")
 		case token.SHL:
 			if c, ok := b.isConst(); ok && c >= 0 && c < 62 {
